@@ -23,6 +23,18 @@ Theorem c18_lock_order_acyclic : lock_order_violations = [].
 Proof. vm_compute. reflexivity. Qed.
 Print Assumptions c18_lock_order_acyclic.
 
+(* ... also across calls: no lock is acquired (directly or by a callee, transitively) while holding a
+   lock that some other path acquires in the opposite order, and no lock is re-acquired while held *)
+Theorem c18_no_lock_order_cycle_across_calls : deadlock_pairs = [] /\ acq_closure_stable = true.
+Proof. vm_compute. split; reflexivity. Qed.
+Print Assumptions c18_no_lock_order_cycle_across_calls.
+
+Example c18_order_pairs_nontrivial :
+  existsb (fun p => String.eqb (fst p) "TimeoutManager.mu" && String.eqb (snd p) "TimeoutManager.sentTimesMu") order_pairs = true /\
+  existsb (fun p => String.eqb (fst p) "TimeoutManager.sentTimesMu" && String.eqb (snd p) "TimeoutBooster.mu") order_pairs = true /\
+  Nat.leb 8 (List.length order_pairs) = true.
+Proof. vm_compute. repeat split; reflexivity. Qed.
+
 (* why the discipline matters: in the interleaving model, a program whose every access to a field
    is made while holding that field's lock has no reachable state with two threads poised at
    conflicting accesses *)
